@@ -4,6 +4,7 @@ CONSTANTS
   MaxCum = 3
   Steps = {1, 2}
   Overwrite = FALSE
+  ZeroReports = "keys"
 INVARIANTS TypeOK Conservation NonNegative NoDoubleCount InFlightIsPending
 PROPERTY DeliveredMonotone OnlyAckDelivers
 VIEW View
